@@ -389,16 +389,16 @@ def write(desc):
                     r = rle_hybrid([1 if v else 0 for v in nn], 1, lmode)
                     vbytes = struct.pack("<I", len(r)) + r
                     venc = ENC_RLE
-                elif venc_mode == "delta" and pt in ("INT32", "INT64"):
+                elif venc_mode in ("delta", "delta+bss") and pt in ("INT32", "INT64"):
                     blk, mn = desc.get("delta_block", (128, 4))
                     vbytes = delta_binary_packed(nn, 32 if pt == "INT32" else 64, blk, mn)
                     venc = ENC_DELTA_BINARY_PACKED
-                elif venc_mode == "delta" and pt == "BYTE_ARRAY":
+                elif venc_mode in ("delta", "delta+bss") and pt == "BYTE_ARRAY":
                     if desc.get("delta_strings", "length") == "length":
                         vbytes, venc = delta_length_byte_array(nn), ENC_DELTA_LENGTH_BYTE_ARRAY
                     else:
                         vbytes, venc = delta_byte_array(nn), ENC_DELTA_BYTE_ARRAY
-                elif venc_mode == "bss" and pt in ("INT32", "INT64", "FLOAT", "DOUBLE"):
+                elif (venc_mode == "bss" and pt in ("INT32", "INT64", "FLOAT", "DOUBLE")) or (venc_mode == "delta+bss" and pt in ("FLOAT", "DOUBLE")):
                     vbytes, venc = byte_stream_split(pt, nn), ENC_BYTE_STREAM_SPLIT
                 else:
                     vbytes = plain(pt, nn)
